@@ -740,8 +740,12 @@ class file_archive(archive):
             name = tempfile.mktemp(prefix="_____", dir="").replace("-","_")
             os.chdir(root)
             string = "from %s import memo as %s; sys.modules.pop('%s')" % (file, name, file)
+            nocache = sys.dont_write_bytecode
             try:
                 sys.path.insert(0, root)
+                # a cached .pyc is validated by (mtime in seconds, size) only:
+                # never write one, or a quick rewrite is read back stale
+                sys.dont_write_bytecode = True
                 exec(string, globals()) #FIXME: unsafe, potential name conflict
                 memo = globals().get(name, {}) #XXX: error if not found ?
                 globals().pop(name, None)
@@ -749,6 +753,7 @@ class file_archive(archive):
                 memo = {}
                #raise OSError("error reading file archive %s" % filename)
             finally:
+                sys.dont_write_bytecode = nocache
                 sys.path.remove(root)
                 os.chdir(curdir)
         return memo
